@@ -84,8 +84,35 @@ func checkC01(c *Ctx) {
 	c.Extra["behaviours"] = nb
 	calibrateGo(c, b, "c01")
 	compareBehaviours(c, b, true, "generated")
+	probeProgram(c, "semicolon-insertion", probeSemicolon, "m 1\nend\n")
 	if len(progs) > 0 {
 		p := progs[len(progs)/2]
 		c.sample(map[string]any{"program": p.ID, "source": clip(b.Sources[p.ID], 1500), "behaviours": len(b.Behs[p.ID])})
 	}
 }
+
+// probeProgram re-runs the specific input of a recorded finding: if it still fails, the violation is
+// reported under the finding's key (and printed as KNOWN-FINDING by finish()).
+func probeProgram(c *Ctx, key, src, want string) {
+	res := runMain(src, true)
+	if res.Stdout != want || res.Failed() {
+		c.violate(key, fmt.Sprintf("recorded input still fails: got %q (%s) want %q", clip(res.Stdout, 120), firstLine(res.ErrString()), want), map[string]any{"source": src, "expected_output": want})
+	}
+}
+
+const probeSemicolon = `package main
+
+type T struct {
+	X int
+}
+
+func (t *T) M() {
+	println("m", t.X)
+}
+
+func Main() {
+	x := 1
+	(&T{X: x}).M()
+	println("end")
+}
+`
